@@ -203,16 +203,21 @@ pub fn check(_ctx: &Ctx, st: &mut Stats, c: &Case) {
     }
 }
 
-const POLS_ANY: [&str; 8] = [
+const POLS_ANY: [&str; 11] = [
     "NearestGoodDayFajrIshaInvalid",
     "AngleBased",
     "SeventhOfNightFajrIshaAlways",
+    "SeventhOfNightFajrIshaInvalid",
+    "SeventhOfDayFajrIshaAlways",
     "SeventhOfDayFajrIshaInvalid",
     "NearestLatitudeFajrIshaInvalid",
+    "NearestLatitudeFajrIshaAlways",
     "NearestLatitudeAllPrayersAlways",
     "MinutesFromMaghribFajrIshaAlways",
     "NearestGoodDayAllPrayersAlways",
 ];
+/// the three policies that consume the Fajr/Isha intervals themselves: used for every kind except the interval ones
+const POLS_INTERVAL_CONSUMING: [&str; 3] = ["HalfOfNightFajrIshaAlways", "HalfOfNightFajrIshaInvalid", "MinutesFromMaghribFajrIshaInvalid"];
 
 fn gen_case(r: &mut Rng) -> Case {
     let lon = gen::any_lon(r);
@@ -225,7 +230,7 @@ fn gen_case(r: &mut Rng) -> Case {
         p.method = *r.pick(&ANGLE_METHODS);
     }
     if r.chance(0.5) {
-        let pol = *r.pick(&POLS_ANY);
+        let pol = if !matches!(kind, "isha_int" | "fajr_int" | "imsaak_int") && r.chance(0.2) { *r.pick(&POLS_INTERVAL_CONSUMING) } else { *r.pick(&POLS_ANY) };
         let pl = if is_nearest_lat(pol) { Some(r.range(-55.0, 55.0)) } else { None };
         p = p.with_policy(pol, pl);
     }
@@ -238,6 +243,33 @@ fn gen_case(r: &mut Rng) -> Case {
     }
     if r.chance(0.3) {
         p.hanafi = Some(r.chance(0.5));
+    }
+    // the base parameter set is itself non-default in half of the cases (offsets on every key, intervals, custom
+    // angles): a parameter's documented effect must hold in combination with the others, not only from defaults
+    if r.chance(0.5) {
+        let mut m = [X(0.0); 7];
+        for x in m.iter_mut() {
+            *x = X(match r.int(0, 3) {
+                0 => 0.0,
+                1 => r.int(-90, 90) as f64,
+                _ => r.range(-90.0, 90.0),
+            });
+        }
+        p.minutes = Some(m);
+    }
+    if r.chance(0.25) {
+        p.imsaak_int = Some(X(r.range(1.0, 30.0)));
+    }
+    if r.chance(0.12) && !matches!(kind, "fajr_angle") {
+        p.fajr_int = Some(X(r.range(1.0, 120.0)));
+    }
+    if r.chance(0.12) && !matches!(kind, "isha_angle") {
+        p.isha_int = Some(X(r.range(1.0, 120.0)));
+    }
+    if r.chance(0.25) {
+        p.fajr_angle = Some(X(r.range(10.0, 20.0)));
+        p.isha_angle = Some(X(r.range(10.0, 20.0)));
+        p.imsaak_angle = Some(X(r.range(0.5, 3.0)));
     }
     let (mut key, mut value, mut value2) = (None, None, None);
     match kind {
